@@ -388,6 +388,7 @@ type gateway struct {
 	st    *store.BucketStore
 	cache *swapCache
 	dir   string
+	reg   *prometheus.Registry
 }
 
 // limits are read by the limiter factories when a Series call starts: the factories are the extension point for
@@ -413,7 +414,7 @@ func newGateway(ctx context.Context, u *universe, cfg Config, lim *limits, dir s
 	if cfg.Gap == 0 {
 		gap = 0
 	}
-	g := &gateway{dir: dir}
+	g := &gateway{dir: dir, reg: reg}
 	opts := []store.BucketStoreOption{store.WithSeriesBatchSize(cfg.Batch)}
 	if reg != nil {
 		opts = append(opts, store.WithRegistry(reg))
